@@ -80,10 +80,12 @@ func (lex *LexScanner) ScanFunc(r ybase.Reader) int {
 		_ = r.Next()
 		return t
 	}
-	switch r.Peek() {
-	case ';': // comment
+	// comments: skipped in a loop, a text may consist of millions of them
+	for r.Peek() == ';' {
 		r.DiscardWhile(func(r rune) bool { return r != '\n' && r != ybase.EOF })
-		return lex.ScanFunc(r)
+		r.DiscardWhile(unicode.IsSpace)
+	}
+	switch r.Peek() {
 	case 'C', 'D', 'E', 'F', 'G', 'A', 'B':
 		return nextRet(SYLLABLE)
 	case 'R':
